@@ -49,7 +49,8 @@ inductive CStmt where
   | assign (lhs : CExpr) (op : String) (e : CExpr)  -- lhs: reg or var; op "=" "+=" ...
   | store (width : Nat) (e : CExpr)                 -- mem_store_u<w>(EA, e)
   | ite (c : CExpr) (t : List CStmt) (e : Option (List CStmt))
-  | for_ (v : String) (cond : CExpr) (body : List CStmt)    -- for (v = 0; cond; v++) body
+  | for_ (v : String) (cond : CExpr) (step : Nat) (body : List CStmt)   -- for (v = 0; cond; v++ | v += step) body  (step 0 = v++)
+  | chain (lhs1 : CExpr) (lhs2 : CExpr) (op2 : String) (e : CExpr)        -- lhs1 = lhs2 op2 e;
   | jump (e : CExpr)
   | skip (what : String)                            -- ";" "{}" "cancel_slot;"
 deriving Repr, Inhabited
@@ -101,8 +102,10 @@ def CStmt.ofSexp : Sexp → Option CStmt
   | .list [.atom "if", c, .list t] => do let c ← CExpr.ofSexp c; let t ← CStmt.ofSexps t; pure (.ite c t none)
   | .list [.atom "if", c, .list t, .list e] => do
       let c ← CExpr.ofSexp c; let t ← CStmt.ofSexps t; let e ← CStmt.ofSexps e; pure (.ite c t (some e))
-  | .list [.atom "for", .str v, b, .list body] => do
-      let b ← CExpr.ofSexp b; let body ← CStmt.ofSexps body; pure (.for_ v b body)
+  | .list [.atom "for", .str v, b, k, .list body] => do
+      let b ← CExpr.ofSexp b; let k ← k.asNat?; let body ← CStmt.ofSexps body; pure (.for_ v b k body)
+  | .list [.atom "chain", l1, l2, .str op2, e] => do
+      let l1 ← CExpr.ofSexp l1; let l2 ← CExpr.ofSexp l2; let e ← CExpr.ofSexp e; pure (.chain l1 l2 op2 e)
   | .list [.atom "jump", e] => do let e ← CExpr.ofSexp e; pure (.jump e)
   | .list [.atom "skip", .str w] => some (.skip w)
   | _ => none
